@@ -143,7 +143,9 @@ class CuboidCells(Cells):
 
         self._nearby_cells = {}
         for cell in self._cells:
-            self._nearby_cells[cell] = set(nearby_cell for nearby_cell in self._yield_nearby_cells(cell))
+            # Use an insertion-ordered dictionary as an ordered set. The cells are hashed by their identity so that the
+            # iteration order of a set depends on memory addresses (and changes when a dumped run is resumed).
+            self._nearby_cells[cell] = dict.fromkeys(self._yield_nearby_cells(cell))
 
     def _yield_nearby_cells(self, cell: Cell) -> Iterable[Cell]:
         """
@@ -227,7 +229,7 @@ class CuboidCells(Cells):
         Set[Cell]
             The set of nearby cells.
         """
-        return self._nearby_cells[cell]
+        return self._nearby_cells[cell].keys()
 
     def neighbor_cell(self, cell: Cell, direction: int, positive: bool) -> Optional[Cell]:
         """
